@@ -195,6 +195,15 @@ def check_bigx(case):
     if not (em <= tol and ec <= tol):
         raise Violation("conditional_wrong", "conditional of %d variables given the other %d (p=%d, banded precision): relative error mean %.3g "
                         "covariance %.3g (tol %.3g); mean %s vs %s" % (ny, len(Xi), p, em, ec, tol, gm.tolist(), want_mean.tolist()))
+    perm = [(case["a"] * k + 3) % len(Xi) for k in range(len(Xi))]
+    if sorted(perm) == list(range(len(Xi))):
+        res2 = must(lib(dist.conditional, list(Y), [Xi[k] for k in perm], x[perm].copy()), "conditional (same object, X permuted)")
+        gm2, gc2 = np.asarray(res2.mean, dtype=float), np.asarray(res2.covariance, dtype=float)
+        em2 = float(np.abs(gm2 - want_mean).max() / (1 + np.abs(want_mean).max()))
+        ec2 = float(np.abs(gc2 - want_cov).max() / np.abs(want_cov).max())
+        if not (em2 <= tol and ec2 <= tol):
+            raise Violation("conditional_order_dependent", "second conditional on the same object with the %d conditioning variables in another "
+                            "order: relative error mean %.3g covariance %.3g (tol %.3g)" % (len(Xi), em2, ec2, tol))
     return ["bigx", "X_ge_64", "nt"]
 
 
